@@ -25,8 +25,9 @@ func (l vLister) ListCompleted(ctx context.Context) ([]discovery.SegmentRef, err
 	if l.h.onList() {
 		return nil, errVerifInjected
 	}
-	refs := make([]discovery.SegmentRef, 0, len(l.h.c.segs))
-	for i, s := range l.h.c.segs {
+	segs := l.h.listing()
+	refs := make([]discovery.SegmentRef, 0, len(segs))
+	for i, s := range segs {
 		topic, part := vTopic(s.tp)
 		base := int64(0)
 		if len(s.offs) > 0 {
@@ -150,6 +151,12 @@ func vRunCase(c *vCase, settle func()) []string {
 	for _, s := range c.segs {
 		t, _ := vTopic(s.tp)
 		mappings[t] = config.Mapping{Topic: t, Lfs: lfsCfg}
+	}
+	for _, op := range c.ops {
+		if op.addSeg != nil {
+			t, _ := vTopic(op.addSeg.tp)
+			mappings[t] = config.Mapping{Topic: t, Lfs: lfsCfg}
+		}
 	}
 	p := &Processor{
 		cfg:            config.Config{Processor: config.ProcessorConfig{PollIntervalSeconds: 5}},
